@@ -172,10 +172,13 @@ CHECKS = {
               "denotes the product by polynomial address identities for all three operands, dimensions and trans / conjugation flags, or the case is "
               "rejected (assertion / exception, in gemm_n or in the context's core::gemm). core::gemm / core::gemv themselves: a legal argument list "
               "reaches the Fortran symbol unchanged; which illegal leading dimensions are rejected is derived from their IR. Each violation carries a "
-              "concrete member of its case class."),
+              "concrete member of its case class. B13.trsm: every leaf of trsm(side, fill, diag, alpha, a, b) for the three conjugation variants that "
+              "compile, both sides / fills and row- / column-major a and b: side, uplo, trans, alpha' and the operand addresses solve a x = alpha b "
+              "(resp. x a = alpha b) in place of b, or the combination is rejected. B13.l1: argument agreement (count, base, stride, conjugated operand "
+              "first in zdotc, the 1 x n zgemv form of dotu) of axpy, copy, swap, scal, dot, nrm2, asum, iamax."),
         design_ref="DESIGN.md 3/C13",
         note=IRNOTE + " Decides the dispatch tables (a necessary condition of the numerical result), not numerical values, not the lazy gemm_range / "
-             "operator forms' evaluation order, and not the single-call wrappers (dot, axpy, scal, copy, swap, nrm2, asum, iamax, herk, syrk, trsm). "
+             "operator forms' evaluation order, and not herk / syrk / trsv. "
              "Reference-BLAS contract (column-major, ld >= max(1, stored rows)) is encoded in checks/c13.py and trusted.",
         technique="abstract interpretation of -O2 LLVM IR in a polynomial domain, checked against the reference-BLAS index contract",
     ),
